@@ -116,7 +116,7 @@ example : Exec (Cfg.seqs [.alloc 0, .ifnull 0 (.ret (.err 110)) .skip, .atom [.c
     St.init [.allocFail 0] (St.init.apply (.allocFail 0)) (.ret .bad) := by
   have h1 : Exec (Cfg.alloc 0) St.init [.allocFail 0] (St.init.apply (.allocFail 0)) .norm := Exec.atom (by simp)
   have h2 : Exec (.ifnull 0 (.ret (.err 110)) .skip) (St.init.apply (.allocFail 0)) [] (St.init.apply (.allocFail 0)) (.ret .bad) :=
-    Exec.ifnullT (by decide) (by decide) Exec.ret
+    Exec.ifnullT (by decide) Exec.ret
   exact Exec.seqN h1 (Exec.seqX (b := Cfg.seqs [.atom [.close 0], .ret .ok]) h2 (by simp))
 
 end Bee2V.C09
